@@ -97,4 +97,4 @@ def run(pid, tier, seed):
             camp.fail(k, what, rc["case"])
     camp.merge(core.run_shards(shard, [dict(seed=core.seed_of(seed, s, 13), n=n, all_mut=allm) for s in range(shards)]))
     camp.extra["mutations"] = list(header42.MUTATIONS)
-    return core.finish(pid, tier, seed, camp, RULE, t0, assumptions=["field values fit the template's widths; only the listed single mutations"])
+    return core.finish(pid, tier, seed, camp, RULE, t0, replay_fn=replay, assumptions=["field values fit the template's widths; only the listed single mutations"])
